@@ -4,7 +4,8 @@ import PersimVerif.Model.Rows
   driver commands for C06 (certificate checker for the rows returned under `matching=True`):
 
   * `cert.rows.bn <dgm1> <dgm2> <rows> <dist>` — exact, at `Rat`, costs L∞ / `(d-b)/2`:
-      `[structure ok, third entries exact, largest |third entry − cost|, max of rows == dist, max of rows]`
+      `[structure ok, third entries exact, largest |third entry − cost|, max of rows == dist, max of rows,
+       checkBnRat]` — the last flag is the proved checker `Rows.checkBnRat` (= the conjunction of flags 1, 2, 4)
   * `cert.rows.bn.f <dgm1> <dgm2> <rows>` — the same cost rule at `Float`:
       `[structure ok, largest deviation, max of rows]`
   * `cert.rows.ws <dgm1> <dgm2> <rows>` — at `Float` with `sqrt`, costs Euclidean / `(d-b)/√2`:
@@ -46,7 +47,8 @@ def handle : Handler
     let mx := rowsMax rows
     -- `st && ex && (mx = some dist)` is `checkRowsBn linfM diagInfM S T rows dist`
     pure (.list [ofBool st, ofBool ex, .num dev, ofBool (decide (mx = some dist)),
-                 match mx with | some m => .num m | none => .str "none"])
+                 match mx with | some m => .num m | none => .str "none",
+                 ofBool (checkBnRat S T rows dist)])
   | "cert.rows.bn.f", [a, b, r] => do
     let S ← floatDgm? a
     let T ← floatDgm? b
